@@ -286,6 +286,23 @@ func (f *fetcher) getFromCacheOrFetch(req *http.Request, key cache.CacheKey, cli
 
 	fetch, err := f.fetchUpstream(up, key, clientHd)
 	if err != nil {
+		if errors.Is(err, ErrNotCacheable) {
+			if _, _, metaErr := f.cache.GetMetadata(key); errors.Is(metaErr, cache.ErrCacheEntryNotFound) {
+				// The entry was removed while it was being revalidated (a cleanup cycle, an eviction), so
+				// the origin's 304 had nothing left to renew. It is a miss now: fetch it in full here, once
+				// for everybody who shares this fetch, instead of sending each of them to the origin.
+				slog.Debug("Stale entry is gone after revalidation, fetching in full.", "url", req.URL, "key", key)
+				res, err := f.handleCacheMiss(req, key, clientHd)
+				if err != nil {
+					return fetchResult{}, err
+				}
+				if res.Type == fetchTypeDirect {
+					res.Direct.Response.Body.Close()
+					return fetchResult{}, ErrNotCacheable
+				}
+				return res, nil
+			}
+		}
 		return fetchResult{}, err
 	}
 	if fetch.Type == fetchTypeDirect {
